@@ -1,6 +1,7 @@
 /- Driver suite "etcd": the model of the etcd-facing endpoint (KB.EtcdShim) behind the same line
 protocol as harness/cmd/kbharness/suite_etcd.go (see the header of that file for the grammar). -/
 import KB.Driver.Suites
+import KB.Driver.Sched
 import KB.EtcdShim
 namespace KB.Driver.Etcd
 open KB KB.Driver KB.Etcd
@@ -17,6 +18,15 @@ structure WatchSt where
 structure State where
   st : SuiteState := {}
   ws : List WatchSt := []
+  /-- scripted-backend mode (`inject …`): the answer the NEXT backend write call returns instead of
+  calling the backend, and the last call that was answered so -/
+  pending : Option BAns := none
+  lastCall : Option BCall := none
+  /-- scheduled mode (`cfg … sched=1`): the backend is the interleaving transition system KB.Sys behind the
+  `sched` driver; an etcd transaction runs as a parked client of it (`start` / `step`), its final backend
+  answer is shaped by `shapeTxn`. `parked`: client id ↦ shape of its transaction -/
+  sg : Option Sched.State := none
+  parked : List (Nat × Shape) := []
   deriving Repr
 
 def init : State := { st := initSuite "etcd" [] }
@@ -116,6 +126,70 @@ def rangeLine : Except EErr RangeResp → String
 def wevStr (e : WEv) : String :=
   s!"{if e.isDelete then "D" else "P"}:{kvStr e.kv}/{okvStr e.prev}"
 
+/-! ### scripted backend answers (`inject`) -/
+
+def parseErr (x : String) : Err :=
+  match x with
+  | "uncertain" => .uncertain
+  | "drift" => .drift
+  | "notfound" => .notFound
+  | "unavailable" => .unavailable
+  | "belowfloor" => .belowFloor
+  | "invalid" => .invalid
+  | _ => .other
+
+/-- `<hexkey>:<hexval>@<rev>` | `-` -/
+def parseKv (x : String) : Option KV :=
+  if x == "-" || x == "" then none else
+  match x.splitOn "@" with
+  | [kv, rev] =>
+    match kv.splitOn ":" with
+    | [k, v] => some (unhx k, unhx v, atou rev)
+    | _ => none
+  | _ => none
+
+def parseAns (opts : List (String × String)) : BAns :=
+  match opt opts "err" with
+  | some e => .error (parseErr e)
+  | none => .resp ((opt opts "succeeded").getD "0" == "1") (atou ((opt opts "hdr").getD "0"))
+              (parseKv ((opt opts "kv").getD "-"))
+
+def callStr : Option BCall → String
+  | none => "none"
+  | some (.create k v l) => s!"create {hx k} {hx v} lease={l}"
+  | some (.delete k r) => s!"delete {hx k} rev={r}"
+  | some (.update k v r l) => s!"update {hx k} {hx v} rev={r} lease={l}"
+
+/-! ### scheduled mode: an etcd transaction as a parked client of KB.Sys -/
+
+/-- the request of the `sched` driver for a backend call -/
+def schedReq : BCall → List String
+  | .create k v _ => ["create", hx k, hx v]
+  | .update k v r _ => ["update", hx k, hx v, toString r]
+  | .delete k r => ["delete", hx k, toString r]
+
+/-- after a `start` / `step` of client `id` on the `sched` driver (`nDone` = finished requests before): still
+parked ⇒ `none` (the driver's `at <cid> <gate>` line stands); returned ⇒ the backend's answer -/
+def schedAnswer (g : Sched.State) (id nDone : Nat) : Option BAns :=
+  match g.g.client id with
+  | some _ => none
+  | none =>
+    match (g.g.done.drop nDone).find? (·.id == id) with
+    | none => none
+    | some d =>
+      let old : Option KV := match d.kind, d.res with
+        | .delete k _, .ok _ => (g.delOld.find? (·.1 == id)).map (fun x => (k, x.2.1, x.2.2))
+        | _, _ => none
+      some (ansOfWrite old d.res)
+
+/-- run client `id` to completion (a sequential `txn` line in scheduled mode) -/
+def schedFinish (g : Sched.State) (cid : String) : Nat → Sched.State
+  | 0 => g
+  | n + 1 =>
+    match g.g.client (widOf cid) with
+    | none => g
+    | some _ => schedFinish (Sched.step g ["step", cid]).1 cid n
+
 /-! ### steps -/
 
 /-- `watcher.Start` + `watcher.Watch`: the `created` answer is unconditional; the registration with
@@ -131,7 +205,7 @@ def stepWatch (s : State) (name key : String) (rev : Int) : State × String :=
   else
     let (ok, b) := doWatch s.st.cfg s.st.b wid pfx (toU64 rev)
     if ok then
-      ({ st := { s.st with b := b }, ws := s.ws ++ [{ name := name, wid := wid, registered := true }] },
+      ({ s with st := { s.st with b := b }, ws := s.ws ++ [{ name := name, wid := wid, registered := true }] },
        s!"watch {name} created")
     else
       ({ s with ws := s.ws ++ [{ name := name, wid := wid, canceled := true, compact := 1 }] }, s!"watch {name} created")
@@ -151,19 +225,80 @@ def stepWevents (s : State) (name : String) : State × String :=
         let bws := s.st.b.watchers.map (fun x => if x.id == bw.id then bw' else x)
         let canceled := w.canceled || bw'.outClosed
         let ws := s.ws.map (fun x => if x.name == name then { x with canceled := canceled } else x)
-        ({ st := { s.st with b := { s.st.b with watchers := bws } }, ws := ws },
+        ({ s with st := { s.st with b := { s.st.b with watchers := bws } }, ws := ws },
          s!"wevents {name} {joinOr (evs.map (fun e => wevStr (shimEvent e))) ","} canceled={b01 canceled} compact={w.compact}")
 
 def step (s : State) (toks : List String) : State × String :=
   let c := s.st.cfg
   let (pos, opts) := parseOpts toks
   match pos with
-  | "cfg" :: _ => ({ st := initSuite "etcd" opts, ws := [] }, "cfg ok")
+  | "cfg" :: _ =>
+    let s0 := initSuite "etcd" opts
+    let sg : Option Sched.State := if opt opts "sched" == some "1"
+      then some { g := { cfg := s0.cfg, dealt := s0.b.dealt, committed := s0.b.committed } } else none
+    ({ st := s0, ws := [], pending := none, lastCall := none, sg := sg, parked := [] }, "cfg ok")
   | ["txn"] =>
-    let (r, b) := shimTxn c s.st.b (parseTxn opts)
-    ({ s with st := { s.st with b := b } }, txnLine r)
-  | ["range", k, e] => (s, rangeLine (shimRange c s.st.b (parseRange k e opts)))
-  | ["rev"] => (s, s!"rev {s.st.b.committed}")
+    let t := parseTxn opts
+    match s.pending, backendCall (classify t) with
+    | some a, some call =>
+      -- scripted-backend mode: the call of this shape is answered with the scripted answer, the backend
+      -- is not called (its state is unchanged); the response is the model's shaping of that answer
+      ({ s with pending := none, lastCall := some call }, txnLine (shapeTxn (classify t) a))
+    | _, _ =>
+      match s.sg with
+      | none =>
+        let (r, b) := shimTxn c s.st.b t
+        ({ s with st := { s.st with b := b } }, txnLine r)
+      | some g =>
+        -- scheduled mode, a transaction that is not parked: its backend call runs to completion
+        match backendCall (classify t) with
+        | none => (s, txnLine (shapeTxn (classify t) (.error .other)))
+        | some call =>
+          let n := g.g.done.length
+          let g := (Sched.step g ("start" :: "c999" :: schedReq call)).1
+          let g := schedFinish g "c999" 16
+          match schedAnswer g 999 n with
+          | some a => ({ s with sg := some g }, txnLine (shapeTxn (classify t) a))
+          | none => ({ s with sg := some g }, "txn stuck")
+  | ["gated", x] => if s.sg.isSome then (s, s!"gated {x}") else (s, "gated bad-op")
+  | ["start", cid, "txn"] =>
+    match s.sg with
+    | none => (s, "start bad-op")
+    | some g =>
+      let t := parseTxn opts
+      let sh := classify t
+      match s.pending, backendCall sh with
+      | _, none => (s, s!"done {cid} {txnLine (shapeTxn sh (.error .other))}")
+      | some a, some call =>
+        ({ s with pending := none, lastCall := some call }, s!"done {cid} {txnLine (shapeTxn sh a)}")
+      | none, some call =>
+        let n := g.g.done.length
+        let (g, line) := Sched.step g ("start" :: cid :: schedReq call)
+        match schedAnswer g (widOf cid) n with
+        | some a => ({ s with sg := some g }, s!"done {cid} {txnLine (shapeTxn sh a)}")
+        | none => ({ s with sg := some g, parked := (widOf cid, sh) :: s.parked.filter (·.1 != widOf cid) }, line)
+  | ["step", cid] =>
+    match s.sg with
+    | none => (s, "step bad-op")
+    | some g =>
+      match s.parked.find? (·.1 == widOf cid) with
+      | none => (s, s!"step {cid} no-such-client")
+      | some (_, sh) =>
+        let n := g.g.done.length
+        let (g, line) := Sched.step g toks
+        match schedAnswer g (widOf cid) n with
+        | some a => ({ s with sg := some g, parked := s.parked.filter (·.1 != widOf cid) },
+                     s!"done {cid} {txnLine (shapeTxn sh a)}")
+        | none => ({ s with sg := some g }, line)
+  | ["inject", "clear"] => ({ s with pending := none, lastCall := none }, "inject ok")
+  | ["inject"] => ({ s with pending := some (parseAns opts) }, "inject ok")
+  | ["injected"] => (s, s!"injected {callStr s.lastCall} pending={b01 s.pending.isSome}")
+  | ["range", k, e] =>
+    let b := match s.sg with
+      | some g => Sched.viewB g.g
+      | none => s.st.b
+    (s, rangeLine (shimRange c b (parseRange k e opts)))
+  | ["rev"] => (s, s!"rev {match s.sg with | some g => g.g.committed | none => s.st.b.committed}")
   | ["watch", name, key, _end, rev] => stepWatch s name key (parseInt rev)
   | ["wevents", name] => stepWevents s name
   | ["wcancel", name] =>
@@ -178,7 +313,7 @@ def step (s : State) (toks : List String) : State × String :=
     let bws := match s.ws.find? (·.name == name) with
       | some w => s.st.b.watchers.filter (·.id != w.wid)
       | none => s.st.b.watchers
-    ({ st := { s.st with b := { s.st.b with watchers := bws } }, ws := ws }, s!"wcancel {name}")
+    ({ s with st := { s.st with b := { s.st.b with watchers := bws } }, ws := ws }, s!"wcancel {name}")
   | ["put", _, _] => (s, "put err unsupported")
   | ["delrange", _, _] => (s, "delrange err unsupported")
   | ["compact", r] => (s, s!"compact hdr={toU64 (parseInt r)}")
